@@ -74,14 +74,18 @@ Definition print_test (t : test) : list tok :=
 
 Definition param_text (np : nat) : list tok := flat_map (fun i => [hash_tok; other (48 + N.of_nat i)]) (seq 1 np).
 
-Fixpoint print_node (n : node) : list tok :=
-  let print := fix print (l : list node) : list tok := match l with [] => [] | x :: r => print_node x ++ print r end in
+(* doubled parameter text ##1..##n of a definition written inside a body *)
+Definition param_text2 (np : nat) : list tok := flat_map (fun i => [hash_tok; hash_tok; other (48 + N.of_nat i)]) (seq 1 np).
+
+(* body mode: how the body of a definition is written.  #k = parameter of the macro the body belongs to; a definition inside the
+   body writes its own parameters ##k, in its parameter text and in its body (NParam2 k) *)
+Fixpoint printb_node (n : node) : list tok :=
+  let print := fix print (l : list node) : list tok := match l with [] => [] | x :: r => printb_node x ++ print r end in
   match n with
   | NWord w => wprint w
   | NGroup b => bg :: print b ++ [eg]
-  | NDef g nm np None b => esc (if g then s_gdef else s_def) :: esc (mname nm) :: param_text np ++ bg :: print b ++ [eg]
+  | NDef g nm np None b => esc (if g then s_gdef else s_def) :: esc (mname nm) :: param_text2 np ++ bg :: print b ++ [eg]
   | NDef _ nm np (Some d) b =>
-      (* \newcommand{\nm}[np+1][d]{b}: the optional argument is #1 *)
       esc s_newcommand :: bg :: esc (mname nm) :: eg :: lbr :: map other (digits (N.of_nat (S np))) ++ rbr :: lbr :: print d ++ rbr ::
       bg :: print b ++ [eg]
   | NCall nm o args =>
@@ -91,6 +95,41 @@ Fixpoint print_node (n : node) : list tok :=
   | NNewSwitch sw => [esc s_newif; esc (ifname sw)]
   | NSetSwitch sw b => [esc (setname sw b)]
   | NParam k => [hash_tok; other (48 + N.of_nat k)]
+  | NParam2 k => [hash_tok; hash_tok; other (48 + N.of_nat k)]
+  | NExpandAfter a b => [esc s_expandafter; esc (mname a); esc (mname b)]
+  | NHash => [hash_tok; hash_tok]
+  | NCond t th el =>
+      print_test t ++ print th ++ match el with Some e => esc s_else :: print e | None => [] end ++ [esc s_fi]
+  | NStep c => esc s_stepcounter :: cname_arg c
+  | NSetC c z => esc s_setcounter :: cname_arg c ++ bg :: znum z ++ [eg]
+  | NAddC c z => esc s_addtocounter :: cname_arg c ++ bg :: znum z ++ [eg]
+  | NCase a (b0 :: bs) el =>
+      esc s_ifcase :: pop a ++ esc s_relax :: print b0 ++
+      (fix pors (l : list (list node)) : list tok := match l with [] => [] | b :: r => esc s_or :: print b ++ pors r end) bs ++
+      match el with Some e => esc s_else :: print e | None => [] end ++ [esc s_fi]
+  | _ => []
+  end.
+Fixpoint printb (l : list node) : list tok := match l with [] => [] | x :: r => printb_node x ++ printb r end.
+
+(* top mode: program text.  The body of a definition is written in body mode *)
+Fixpoint print_node (n : node) : list tok :=
+  let print := fix print (l : list node) : list tok := match l with [] => [] | x :: r => print_node x ++ print r end in
+  match n with
+  | NWord w => wprint w
+  | NGroup b => bg :: print b ++ [eg]
+  | NDef g nm np None b => esc (if g then s_gdef else s_def) :: esc (mname nm) :: param_text np ++ bg :: printb b ++ [eg]
+  | NDef _ nm np (Some d) b =>
+      (* \newcommand{\nm}[np+1][d]{b}: the optional argument is #1 *)
+      esc s_newcommand :: bg :: esc (mname nm) :: eg :: lbr :: map other (digits (N.of_nat (S np))) ++ rbr :: lbr :: print d ++ rbr ::
+      bg :: printb b ++ [eg]
+  | NCall nm o args =>
+      esc (mname nm) :: match o with Some x => lbr :: print x ++ [rbr] | None => [] end ++
+      (fix pargs (l : list (list node)) : list tok := match l with [] => [] | a :: r => bg :: print a ++ eg :: pargs r end) args
+  | NLet nm tg => [esc s_let; esc (mname nm); other 61; esc (mname tg)]
+  | NNewSwitch sw => [esc s_newif; esc (ifname sw)]
+  | NSetSwitch sw b => [esc (setname sw b)]
+  | NParam k => [hash_tok; other (48 + N.of_nat k)]
+  | NExpandAfter a b => [esc s_expandafter; esc (mname a); esc (mname b)]
   | NHash => [hash_tok; hash_tok]
   | NCond t th el =>
       print_test t ++ print th ++ match el with Some e => esc s_else :: print e | None => [] end ++ [esc s_fi]
@@ -163,41 +202,112 @@ Fixpoint fa_node (x : node) : bool :=
   | _ => false
   end.
 
+(* [d] bounds the depth at which a parameter may occur (the evaluator's substitution has fuel); argument text, which has no
+   parameter, may sit at any depth: the result of a substitution contains the arguments *)
 Fixpoint fb_node (n : nat) (x : node) (d : nat) {struct x} : bool :=
   match x with
   | NWord _ | NLet _ _ | NNewSwitch _ | NSetSwitch _ _ | NStep _ | NSetC _ _ | NAddC _ _ => true
   | NParam k => Nat.leb 1 k && Nat.leb k n
-  | NGroup b => match d with O => false | S d' => forallb (fun y => fb_node n y d') b end
+  | NGroup b => fa_node x || match d with O => false | S d' => forallb (fun y => fb_node n y d') b end
   | NDef _ _ np dflt b =>
-      Nat.eqb np 0 && is_none dflt && match d with O => false | S d' => forallb (fun y => fb_node n y d') b end
+      fa_node x || (Nat.eqb np 0 && is_none dflt && match d with O => false | S d' => forallb (fun y => fb_node n y d') b end)
   | NCall _ o a =>
-      opt_ok o && forallb (fun arg => match d with O => false | S d' => forallb (fun y => fb_node n y d') arg end) a
+      fa_node x || (opt_ok o && forallb (fun arg => match d with O => false | S d' => forallb (fun y => fb_node n y d') arg end) a)
+  | NCond t th el =>
+      fa_node x ||
+      (f2_test t &&
+       match d with
+       | O => false
+       | S d' => forallb (fun y => fb_node n y d') th &&
+                 match el with Some e => forallb (fun y => fb_node n y d') e | None => true end
+       end)
+  | NCase a bs el =>
+      fa_node x ||
+      (case_head a bs &&
+       match d with
+       | O => false
+       | S d' => forallb (forallb (fun y => fb_node n y d')) bs &&
+                 match el with Some e => forallb (fun y => fb_node n y d') e | None => true end
+       end)
+  | _ => false
+  end.
+
+(* the body of a definition with m parameters of its own (##k) written inside the body of a macro with n parameters (#k) *)
+Fixpoint fi_node (n m : nat) (x : node) (d : nat) {struct x} : bool :=
+  match x with
+  | NWord _ | NLet _ _ | NNewSwitch _ | NSetSwitch _ _ | NStep _ | NSetC _ _ | NAddC _ _ => true
+  | NParam k => Nat.leb 1 k && Nat.leb k n
+  | NParam2 k => Nat.leb 1 k && Nat.leb k m
+  | NGroup b => match d with O => false | S d' => forallb (fun y => fi_node n m y d') b end
+  | NCall _ o a => opt_ok o && forallb (fun arg => match d with O => false | S d' => forallb (fun y => fi_node n m y d') arg end) a
   | NCond t th el =>
       f2_test t &&
       match d with
       | O => false
-      | S d' => forallb (fun y => fb_node n y d') th &&
-                match el with Some e => forallb (fun y => fb_node n y d') e | None => true end
+      | S d' => forallb (fun y => fi_node n m y d') th && match el with Some e => forallb (fun y => fi_node n m y d') e | None => true end
       end
   | NCase a bs el =>
       case_head a bs &&
       match d with
       | O => false
-      | S d' => forallb (forallb (fun y => fb_node n y d')) bs &&
-                match el with Some e => forallb (fun y => fb_node n y d') e | None => true end
+      | S d' => forallb (forallb (fun y => fi_node n m y d')) bs && match el with Some e => forallb (fun y => fi_node n m y d') e | None => true end
+      end
+  | _ => false
+  end.
+
+(* bodies that may also contain definitions with parameters of their own (nested definitions): only in the body of a macro that has
+   parameters itself (n >= 1: a parameterless \def returns its body as it is, without turning ## into #), not inside call arguments,
+   and the inner body contains no further definition *)
+Fixpoint fb3_node (n : nat) (x : node) (d : nat) {struct x} : bool :=
+  fb_node n x d ||
+  match x with
+  | NGroup b => match d with O => false | S d' => forallb (fun y => fb3_node n y d') b end
+  | NDef g _ np dflt b =>
+      Nat.leb 1 n &&
+      match d with
+      | O => false
+      | S d' =>
+          match dflt with
+          | None => Nat.leb 1 np && Nat.leb np 9 && forallb (fun y => fi_node n np y d') b
+          | Some dd => g && Nat.leb (S np) 9 && forallb is_word dd && forallb (fun y => fi_node n (S np) y d') b
+          end
+      end
+  | NCond t th el =>
+      f2_test t &&
+      match d with
+      | O => false
+      | S d' => forallb (fun y => fb3_node n y d') th && match el with Some e => forallb (fun y => fb3_node n y d') e | None => true end
+      end
+  | NCase a bs el =>
+      case_head a bs &&
+      match d with
+      | O => false
+      | S d' => forallb (forallb (fun y => fb3_node n y d')) bs && match el with Some e => forallb (fun y => fb3_node n y d') e | None => true end
       end
   | _ => false
   end.
 Definition BODY_DEPTH : nat := 49.      (* MacroLang.subst is called with fuel 50 = S BODY_DEPTH *)
 
+(* the body of a parameterless \def is handed back as it is (no expandDef): a definition with parameters written there keeps its ##k
+   until \def itself (DefCommand) removes one level of # from its parameter text and its body.  Such a body: words and definitions
+   \def\zq..##1..##k{..} with 1 <= k <= 9 whose own body holds words, ##k, groups, calls, conditionals *)
+Definition fv_node (x : node) : bool :=
+  match x with
+  | NWord _ => true
+  | NDef _ _ np None b => Nat.leb 1 np && Nat.leb np 9 && forallb (fun y => fi_node 0 np y BODY_DEPTH) b
+  | _ => false
+  end.
+
 Fixpoint f2_node (x : node) : bool :=
   match x with
   | NWord _ | NLet _ _ | NNewSwitch _ | NSetSwitch _ _ | NStep _ | NSetC _ _ | NAddC _ _ => true
+  | NExpandAfter _ _ => true      (* in program text only (not in bodies or arguments); what it needs of the two macros: [gsafe] *)
   | NGroup b => forallb f2_node b
   | NDef g _ np d b =>
       match d with
-      | None => Nat.leb np 9 && (forallb (fun y => fb_node np y BODY_DEPTH) b || (Nat.eqb np 0 && forallb fa_node b))
-      | Some dd => g && Nat.leb (S np) 9 && forallb is_word dd && forallb (fun y => fb_node (S np) y BODY_DEPTH) b
+      | None => Nat.leb np 9 && ((Nat.leb 1 np && forallb (fun y => fb3_node np y BODY_DEPTH) b) ||
+                                 (Nat.eqb np 0 && (forallb fa_node b || forallb fv_node b)))
+      | Some dd => g && Nat.leb (S np) 9 && forallb is_word dd && forallb (fun y => fb3_node (S np) y BODY_DEPTH) b
       end
   | NCall _ o a => opt_ok o && forallb (forallb fa_node) a
   | NCond t th el => f2_test t && forallb f2_node th && match el with Some e => forallb f2_node e | None => true end
@@ -205,6 +315,15 @@ Fixpoint f2_node (x : node) : bool :=
   | _ => false
   end.
 Definition in_F2 (p : list node) : bool := forallb f2_node p.
+(* ---- fragment F3 = F2 + definitions with parameters of their own written inside the body of a macro that has parameters:
+        \def\zq..#1{.. \def\zq..##1##2{.. #1 .. ##2 ..} ..}  and  \newcommand{\zq..}[k][dflt]{.. ##1 ..}  (bodies in body mode, [printb]);
+        when the outer macro is called, #k is replaced and ##k becomes #k ([MacroLang.subst] / [MacroLang.lower], expandDef).
+        Restrictions ([fb3_node], [fi_node]): the nested definition is not inside a call argument and its body holds no further
+        definition; the outer macro has at least one parameter - or none at all, and then its body is made of words and such
+        \def's only ([fv_node]: the body is handed back as it is, \def itself reduces ## to #).
+        Since stage 4 [f2_node] describes this larger fragment: [in_F2] and [in_F3] are the same predicate (the theorems stated
+        with in_F2 became stronger). ---- *)
+Definition in_F3 (p : list node) : bool := in_F2 p.
 
 (* ---- \gdef: TeX replaces the meaning at every level, plasTeX only writes the global frame (DESIGN C04, observation).
         They agree when no open group holds a local definition of that name at the moment of the \gdef.  [gdef_safe]
@@ -212,7 +331,8 @@ Definition in_F2 (p : list node) : bool := forallb f2_node p.
         (\newcommand is global in plasTeX by design, hence printed for global definitions only.)
         It also checks that an optional argument [..] is only written after a macro that has one (the reference
         evaluator ignores a superfluous one, TeX would print it), and that a switch is declared (\newif) before it is
-        tested or set (the reference evaluator reads an undeclared switch as false; in TeX it is an undefined macro). ---- *)
+        tested or set (the reference evaluator reads an undeclared switch as false; in TeX it is an undefined macro);
+        and, for \expandafter\a\b, that \b is a parameterless \def whose body is non-empty argument text. ---- *)
 Definition unshadowed (nm : Z) (fs : list MacroLang.frame) : bool :=
   forallb (fun f => match alookup nm f with None => true | Some _ => false end) (removelast fs).
 
@@ -220,6 +340,13 @@ Definition tick (e : env) (budget : nat) : env :=
   {| frames := frames e; counters := counters e; switches := switches e; steps := budget |}.
 Definition with_frames (e : env) (fs : list MacroLang.frame) : env :=
   {| frames := fs; counters := counters e; switches := switches e; steps := steps e |}.
+
+(* \expandafter\a\b: the arguments of \a are the brace groups the body of \b starts with (the same function as inside MacroLang.eval) *)
+Fixpoint take_groups (k : nat) (l : list node) (acc : list (list node)) : option (list (list node) * list node) :=
+  match k with
+  | O => Some (rev acc, l)
+  | S k' => match l with NGroup g :: l' => take_groups k' l' (g :: acc) | _ => None end
+  end.
 
 Fixpoint gsafe (fuel : nat) (e : env) (out : list Z) (ns : list node) : bool :=
   match fuel with O => true | S f =>
@@ -275,6 +402,24 @@ Fixpoint gsafe (fuel : nat) (e : env) (out : list Z) (ns : list node) : bool :=
                  else match el with Some x => x | None => [] end in
         gsafe f e out b &&
         match eval f e out b with Ok e' out' => gsafe f e' out' rest | _ => true end
+    | NExpandAfter a b =>
+        (* \b is a parameterless \def with a non-empty body of argument text (plasTeX pushes the macro instance itself when the
+           expansion is empty), \a has no optional argument; then as the call of \a the reference evaluator makes of it *)
+        match lookup_frames a (frames e), lookup_frames b (frames e) with
+        | Some ma, Some mb =>
+            match m_n mb, m_default mb, m_default ma with
+            | O, None, None =>
+                forallb fa_node (m_body mb) && (match m_body mb with [] => false | _ => true end) &&
+                match take_groups (m_n ma) (subst 50 [] (m_body mb)) [] with
+                | Some (args, after) =>
+                    gsafe f e out (NCall a None args :: after) &&
+                    match eval f e out (NCall a None args :: after) with Ok e' out' => gsafe f e' out' rest | _ => true end
+                | None => true
+                end
+            | _, _, _ => true
+            end
+        | _, _ => true
+        end
     | _ => true
     end end
   end end.
@@ -286,8 +431,8 @@ Definition text_of (out : list tok) : list tok := filter (fun t => negb (is_elem
 (* the token-level meaning a macro of F1 has *)
 Definition mean_of (m : MacroLang.meaning) : Engine.meaning :=
   match m_default m with
-  | None => MDef (param_text (m_n m)) (print (m_body m))
-  | Some d => MNew (S (m_n m)) (Some (print d)) (print (m_body m))
+  | None => MDef (param_text (m_n m)) (printb (m_body m))
+  | Some d => MNew (S (m_n m)) (Some (print d)) (printb (m_body m))
   end.
 
 (* ---- wire: (nodes...) -> ((tok ...) in_F1 gdef_safe in_F2) ---- *)
